@@ -584,7 +584,7 @@ func runDrv6(c *Ctx) {
 	p := c.P
 	n := 0
 	for _, fn := range p.ModFuncs() {
-		if !errPackages[p.PkgShort(fn)] {
+		if !errFn(p, fn) {
 			continue
 		}
 		for _, cs := range callsIn(fn) {
